@@ -11,7 +11,7 @@ CLAIMED = {
     ),
     "C05": (
         "On the C01/C04 input spaces the validating constructor, validate() and is_valid are executed in one path; per path the solver shows that only library exceptions escape, is_valid never raises, the three entry points agree, and the class of each raised error implies the named defect under the reference.",
-        "Bounded as C01/C04 (quick: own length for one country per signature, all lengths for 8 seeded countries + unknown prefix). InvalidBBANChecksum soundness is part of C06/C07.",
+        "Bounded as C01/C04 (quick: own length for one country per signature, all lengths for 8 seeded countries + unknown prefix; thorough: all lengths for 48 seeded countries). InvalidBBANChecksum soundness is part of C06/C07.",
         "3 C05",
     ),
     "C02": (
